@@ -55,6 +55,12 @@ func cutCRFunc(r rune) bool {
 	return r == '\r' || r == '\n'
 }
 
+// splitParams splits middle parameters, which are separated by one or more
+// spaces (0x20) only; other whitespace is part of the parameter.
+func splitParams(raw string) []string {
+	return strings.FieldsFunc(raw, func(r rune) bool { return r == rune(eventSpace) })
+}
+
 // ParseEvent takes a string and attempts to create a Event struct. Returns
 // nil if the Event is invalid.
 func ParseEvent(raw string) (e *Event) {
@@ -126,7 +132,7 @@ func ParseEvent(raw string) (e *Event) {
 
 		if trailerIndex == -1 {
 			// No trailing argument found, assume the rest is just params.
-			e.Params = strings.Fields(raw[j:])
+			e.Params = splitParams(raw[j:])
 			return e
 		}
 
@@ -149,7 +155,7 @@ func ParseEvent(raw string) (e *Event) {
 	// Check if we need to parse arguments. If so, take everything after the
 	// command, and right before the trailing prefix, and cut it up.
 	if i > j {
-		e.Params = strings.Fields(raw[j : i-1])
+		e.Params = splitParams(raw[j : i-1])
 	}
 
 	e.Params = append(e.Params, raw[i+1:])
